@@ -1,6 +1,9 @@
 import CJ.Drv.Loop
-/-! Driver for C12 (stub until the models are written). -/
+import CJ.Drv.Registrar
+/-! Driver for C12: the registrar model. -/
 open CJ.Drv
 
 def main : IO Unit := runDriver fun
+  | "registrar" :: args => Registrar.handle args
+  | "choose" :: args => Registrar.handleChoose args
   | _ => none
